@@ -17,7 +17,7 @@ Definition a_upd (a : amap) (p : name) (v : option N) : amap :=
 Definition prefix (p n : name) : Prop := exists r, n = p ++ r.
 
 (* p |-> h is the longest occupied prefix of n *)
-Definition is_lpm (a : amap) (n p : name) (h : N) : Prop :=
+Definition is_lpm {X} (a : name -> option X) (n p : name) (h : X) : Prop :=
   a p = Some h /\ prefix p n /\
   forall p' h', a p' = Some h' -> prefix p' n -> (length p' <= length p)%nat.
 
@@ -92,3 +92,44 @@ Fixpoint srun_from (fe : frontend) (s : sst) (l : list sop) : sst * list sobs :=
   | o :: r => let '(s1, b) := sstep fe s o in let '(s2, bs) := srun_from fe s1 r in (s2, b :: bs)
   end.
 Definition srun (fe : frontend) (l : list sop) : sst * list sobs := srun_from fe sst0 l.
+
+(* ---- reading the model through the specification's eyes ------------------------------------- *)
+(* the handler attached at prefix p in a table of the model *)
+Definition attached (t : fib) (p : name) : option N :=
+  match Trie.t_get t p with Some node => pn_cb node | None => None end.
+
+(* histories the specification talks about: handlers are callables (not None) *)
+Definition wf_op (o : op) : Prop := match o with OAttach _ None _ _ => False | _ => True end.
+
+(* ... and, for the event-by-event comparison, replies are made through a v2 handler's callback while
+   the face is up *)
+Definition sop_of (fe : frontend) (o : op) : option sop :=
+  match o with
+  | OAttach k (Some h) _ _ => Some (SAttach k h)
+  | OAttach _ None _ _ => None
+  | ODetach k => Some (SDetach k)
+  | ORecv n life now => Some (SRecv n life now)
+  | OSettle => Some SSettle
+  | OReply i now true => match fe with FE_V2 => Some (SReply i now) | _ => None end
+  | OReply _ _ false => None
+  | OCleanUp => Some SDisconnect
+  end.
+Fixpoint sops_of (fe : frontend) (l : list op) : option (list sop) :=
+  match l with
+  | [] => Some []
+  | o :: r => match sop_of fe o, sops_of fe r with Some x, Some xs => Some (x :: xs) | _, _ => None end
+  end.
+
+(* what the application sees of a model observation *)
+Definition abs_obs (o : obs) : option sobs :=
+  match o with
+  | ObOk => Some SoOk
+  | ObErr EValue => Some SoRefused
+  | ObErr EKey => Some SoKeyError
+  | ObErr EIndex => Some SoNoSuchCall
+  | ObErr _ => None
+  | ObRecv _ => Some SoNothing
+  | ObCalls l => Some (SoCalls l)
+  | ObDispatch b l => Some (SoDispatch b l)
+  | ObReply sent r => Some (SoReply sent (match r with RTrue => true | _ => false end))
+  end.
